@@ -140,13 +140,13 @@ def decode_length_summary(ctx: Ctx, rep: Report) -> Optional[List[Tuple[Val, Val
 
 
 def run(ctx: Ctx, rep: Report) -> None:
-    rep.rule("C20-R1", "every while loop reachable while processing a datagram makes progress (cursor advance / strictly decreasing measure / finite iterator)", floor=8)
+    rep.rule("C20-R1", "every while loop reachable while processing a datagram makes progress (cursor advance / strictly decreasing measure / finite iterator)", floor=7)
     rep.rule("C20-R2", "no decoded integer reaches range(), a repetition count or an allocation size unchecked", floor=1)
     rep.rule("C20-R3", "processing a datagram writes nothing to shared state except the lazily built security model", floor=3)
     rep.rule("C20-R4", "no eager recursion on the decode path", floor=1)
     rep.rule("C20-R5", "a lazily decoded SEQUENCE is walked once: no indexing / len() / .value of it inside a loop (each access re-decodes the whole value: quadratic time in the datagram size)", floor=1)
-    rep.rule("C20-R7", "no reply makes the UDP sender spin: the retry loop returns at the first reply and otherwise uses up one retry per iteration (shared with C13-R2)", floor=10)
-    rep.rule("C20-R6", "a failed exchange leaves no per-datagram state behind: every store to shared state in the package is a justified, operation-independent instance (shared with C14-R1)", floor=12)
+    rep.rule("C20-R7", "no reply makes the UDP sender spin: the retry loop returns at the first reply and otherwise uses up one retry per iteration (shared with C13-R2)", floor=7)
+    rep.rule("C20-R6", "a failed exchange leaves no per-datagram state behind: every store to shared state in the package is a justified, operation-independent instance (shared with C14-R1)", floor=10)
     rep.assumptions += [
         "CPython: len() >= 0, int.from_bytes(.., signed=False) >= 0, bytes.find() >= -1, slicing never reads outside the object",
         "time and memory as a concrete multiple of the datagram size are not quantified; only absence of unbounded loops / allocations is decided",
